@@ -161,6 +161,8 @@ pub struct Connection {
     key_phase: bool,
     /// How many packets are in the current key phase. Used only for `Data` space.
     key_phase_size: u64,
+    /// Lowest `Data` space packet number that can have been sent in the current key phase
+    key_phase_start_pn: u64,
     /// Transport parameters set by the peer
     peer_params: TransportParameters,
     /// Source ConnectionId of the first packet received from the peer
@@ -301,6 +303,7 @@ impl Connection {
             // response. Inspired by quic-go's similar behavior of performing the first key update
             // at the 100th short-header packet.
             key_phase_size: rng.random_range(10..1000),
+            key_phase_start_pn: 0,
             peer_params: TransportParameters::default(),
             orig_rem_cid: rem_cid,
             initial_dst_cid: init_cid,
@@ -1300,6 +1303,16 @@ impl Connection {
             // We already just updated, or are currently updating, the keys. Concurrent key updates
             // are illegal.
             debug!("ignoring redundant forced key update");
+            return;
+        }
+        if self.spaces[SpaceId::Data]
+            .largest_acked_packet
+            .is_none_or(|acked| acked < self.key_phase_start_pn)
+        {
+            // RFC 9001 section 6.1: a key update must not be initiated before a packet sent with
+            // the current keys has been acknowledged. Otherwise a peer that never saw the
+            // current phase cannot tell the next one (same key phase bit) from the previous one.
+            debug!("ignoring forced key update before the current key phase was acknowledged");
             return;
         }
         self.update_keys(None, false);
@@ -3624,6 +3637,7 @@ impl Connection {
             mem::replace(self.next_crypto.as_mut().unwrap(), new),
         );
         self.spaces[SpaceId::Data].sent_with_keys = 0;
+        self.key_phase_start_pn = self.spaces[SpaceId::Data].next_packet_number;
         self.prev_crypto = Some(PrevCrypto {
             crypto: old,
             end_packet,
